@@ -388,8 +388,12 @@ class HistogramBase(abc.ABC):
             self._missed = self._missed.astype(self._missed_dtype(value))
 
     def _missed_dtype(self, dtype: np.dtype) -> np.dtype:
-        """Type of the missed counters for a given type of the bin contents."""
-        return dtype
+        """Type of the missed counters for a given type of the bin contents.
+
+        They are kept as floats: they must be able to hold NaN ("unknown") and
+        any weight that did not make it into the bins.
+        """
+        return np.promote_types(dtype, np.float64)
 
     def _coerce_dtype(self, other_dtype: DTypeLike) -> None:
         """Possibly change the bin content type to allow correct operations with other operand.
